@@ -308,8 +308,13 @@ func cellValueAt(a *ssa.Alloc, load *ssa.UnOp) ssa.Value {
 			}
 			stores = append(stores, x)
 		case *ssa.UnOp, *ssa.DebugRef:
+		case *ssa.MakeClosure:
+			// captured by reference: fine when the function literal (and its nested literals) only READS the cell
+			if !closureOnlyReads(x, a) {
+				return nil
+			}
 		default:
-			return nil // address escapes (closure capture etc.): another goroutine/closure may write
+			return nil // address escapes: another goroutine/function may write
 		}
 	}
 	var best *ssa.Store
@@ -856,4 +861,56 @@ func edgeFact(pred, succ *ssa.BasicBlock) (EdgeFact, bool) {
 		return normFact(EdgeFact{ifi.Cond, false}), true
 	}
 	return EdgeFact{}, false
+}
+
+// phiLeaves expands phis (transitively) into the non-phi values that can flow into v.
+func phiLeaves(v ssa.Value) []ssa.Value {
+	var out []ssa.Value
+	seen := map[ssa.Value]bool{}
+	var walk func(x ssa.Value)
+	walk = func(x ssa.Value) {
+		if seen[x] {
+			return
+		}
+		seen[x] = true
+		if p, ok := x.(*ssa.Phi); ok {
+			for _, e := range p.Edges {
+				walk(e)
+			}
+			return
+		}
+		out = append(out, x)
+	}
+	walk(v)
+	return out
+}
+
+// closureOnlyReads: the function literal of mc uses the captured cell only in loads (transitively through nested literals).
+func closureOnlyReads(mc *ssa.MakeClosure, cell ssa.Value) bool {
+	fn, ok := mc.Fn.(*ssa.Function)
+	if !ok {
+		return false
+	}
+	for i, b := range mc.Bindings {
+		if b != cell {
+			continue
+		}
+		fv := fn.FreeVars[i]
+		for _, r := range *fv.Referrers() {
+			switch x := r.(type) {
+			case *ssa.UnOp:
+				if x.Op != token.MUL {
+					return false
+				}
+			case *ssa.DebugRef:
+			case *ssa.MakeClosure:
+				if !closureOnlyReads(x, fv) {
+					return false
+				}
+			default:
+				return false
+			}
+		}
+	}
+	return true
 }
